@@ -291,6 +291,29 @@ pub fn promote_locals(
         &mut delete_insts,
     );
 
+    // Unreachable blocks are not visited by `record_rewrites`. Where one of them branches to a
+    // block that got new arguments, it passes those arguments themselves: the branch is never
+    // taken, but the number of passed arguments must match.
+    for block in function.block_iter(context).collect::<Vec<_>>() {
+        if po.block_to_po.contains_key(&block) {
+            continue;
+        }
+        let mut visited_succs = HashSet::new();
+        for BranchToWithArgs { block: succ, .. } in block.successors(context) {
+            if !visited_succs.insert(succ) {
+                continue;
+            }
+            let new_args: Vec<_> = succ
+                .arg_iter(context)
+                .filter(|arg| phi_to_local.contains_key(arg))
+                .copied()
+                .collect();
+            for new_arg in new_args {
+                push_succ_param(context, &block, &succ, new_arg);
+            }
+        }
+    }
+
     // Apply the rewrites.
     modified |= function.replace_values(context, &value_replacement, None);
 
@@ -300,6 +323,33 @@ pub fn promote_locals(
     }
 
     Ok(modified)
+}
+
+/// Pass `new_val` as an additional argument in every branch from `node` to `succ`
+/// (a conditional branch can have `succ` as both of its successors).
+fn push_succ_param(context: &mut Context, node: &Block, succ: &Block, new_val: Value) {
+    match node.get_terminator_mut(context) {
+        Some(Instruction {
+            op:
+                InstOp::ConditionalBranch {
+                    true_block,
+                    false_block,
+                    ..
+                },
+            ..
+        }) => {
+            if true_block.block == *succ {
+                true_block.args.push(new_val);
+            }
+            if false_block.block == *succ {
+                false_block.args.push(new_val);
+            }
+        }
+        _ => {
+            let params = node.get_succ_params_mut(context, succ).unwrap();
+            params.push(new_val);
+        }
+    }
 }
 
 // We're just left with rewriting the loads and stores into SSA.
@@ -413,28 +463,7 @@ fn record_rewrites(
                 };
 
                 modified = true;
-                match node.get_terminator_mut(context) {
-                    Some(Instruction {
-                        op:
-                            InstOp::ConditionalBranch {
-                                true_block,
-                                false_block,
-                                ..
-                            },
-                        ..
-                    }) => {
-                        if true_block.block == succ {
-                            true_block.args.push(new_val);
-                        }
-                        if false_block.block == succ {
-                            false_block.args.push(new_val);
-                        }
-                    }
-                    _ => {
-                        let params = node.get_succ_params_mut(context, &succ).unwrap();
-                        params.push(new_val);
-                    }
-                }
+                push_succ_param(context, &node, &succ, new_val);
             }
         }
     }
